@@ -246,10 +246,9 @@ inductive CallPhase (α ε : Type)
   | entered                         -- `updateContainers` holds the adaptation mutex
   | ran (r : FnResult α ε)          -- `updateFn` returned `r`, mutex still held
   | left (r : FnResult α ε)         -- mutex released; reply on its way
-  | returned                        -- the stub call returned to the plugin
+  | returned (r : FnResult α ε)     -- the stub call returned to the plugin
 
 structure Call (α ε : Type) where
-  u : Uid
   p : Pid
   update : List α
   phase : CallPhase α ε
@@ -281,46 +280,51 @@ structure State (α ε : Type) where
   /-- ghost: who is executing inside a section the mutex is meant to protect (maintained
       independently of `mu`; that it never holds two owners is the theorem) -/
   inside : List Owner := []
-  calls : List (Call α ε) := []
+  /-- the unsolicited update calls made so far -/
+  call : Uid → Option (Call α ε) := fun _ => none
+  /-- ghost log: every invocation of the runtime's `UpdateFn` on behalf of call `u`
+      (argument, result) -/
+  fnRuns : Uid → List (List α × FnResult α ε) := fun _ => []
+  /-- ghost log: everything returned to the plugin for call `u` -/
+  rets : Uid → List (List α × Option (StubErr ε)) := fun _ => []
   /-- ids of the requests that have finished (ghost: request ids are not reused) -/
   doneReqs : List Rid := []
 
 def init {α ε : Type} : State α ε := {}
 
-def findCall {α ε : Type} (cs : List (Call α ε)) (u : Uid) : Option (Call α ε) :=
-  cs.find? (fun c => c.u == u)
-
-def setPhase {α ε : Type} (cs : List (Call α ε)) (u : Uid) (ph : CallPhase α ε) : List (Call α ε) :=
-  cs.map (fun c => if c.u == u then { c with phase := ph } else c)
+def upd {β : Type} (f : Uid → β) (u : Uid) (x : β) : Uid → β := fun v => if v = u then x else f v
 
 def step? {α ε : Type} [DecidableEq α] [DecidableEq ε] (s : State α ε) : Ev α ε → Option (State α ε)
   | .call u p update =>
-    match findCall s.calls u with
+    match s.call u with
     | some _ => none
-    | none => some { s with calls := ⟨u, p, update, .called⟩ :: s.calls }
+    | none => some { s with call := upd s.call u (some ⟨p, update, .called⟩) }
   | .enter u =>
-    match findCall s.calls u, s.mu with
-    | some ⟨_, _, _, .called⟩, none =>
+    match s.call u, s.mu with
+    | some ⟨p, update, .called⟩, none =>
       some { s with mu := some (.upd u), inside := .upd u :: s.inside,
-                    calls := setPhase s.calls u .entered }
+                    call := upd s.call u (some ⟨p, update, .entered⟩) }
     | _, _ => none
   | .fn u arg res =>
-    match findCall s.calls u with
-    | some ⟨_, _, update, .entered⟩ =>
+    match s.call u with
+    | some ⟨p, update, .entered⟩ =>
       if s.mu = some (.upd u) ∧ arg = update then
-        some { s with calls := setPhase s.calls u (.ran res) } else none
+        some { s with call := upd s.call u (some ⟨p, update, .ran res⟩),
+                      fnRuns := upd s.fnRuns u ((arg, res) :: s.fnRuns u) } else none
     | _ => none
   | .leave u =>
-    match findCall s.calls u with
-    | some ⟨_, _, _, .ran r⟩ =>
+    match s.call u with
+    | some ⟨p, update, .ran r⟩ =>
       if s.mu = some (.upd u) then
         some { s with mu := none, inside := s.inside.erase (.upd u),
-                      calls := setPhase s.calls u (.left r) } else none
+                      call := upd s.call u (some ⟨p, update, .left r⟩) } else none
     | _ => none
   | .ret u out =>
-    match findCall s.calls u with
-    | some ⟨_, _, _, .left r⟩ =>
-      if out = expected r then some { s with calls := setPhase s.calls u .returned } else none
+    match s.call u with
+    | some ⟨p, update, .left r⟩ =>
+      if out = expected r then
+        some { s with call := upd s.call u (some ⟨p, update, .returned r⟩),
+                      rets := upd s.rets u (out :: s.rets u) } else none
     | _ => none
   | .reqBegin r =>
     if s.mu = none ∧ r ∉ s.doneReqs then
